@@ -5,6 +5,10 @@
 -/
 import AnyVecModel.Proofs.Exec
 import AnyVecModel.Proofs.KernelCtor
+import AnyVecModel.Proofs.KernelInsert
+import AnyVecModel.Proofs.KernelClear
+import AnyVecModel.Proofs.KernelTempDrop
+import AnyVecModel.Proofs.KernelSpliceDrop
 import AnyVecModel.Props.Hist
 namespace AnyVec
 namespace C06
@@ -334,6 +338,53 @@ theorem range_len_is_lowered_first_is_the_source (cfg : Cfg) (w : World) (v : Na
             | .forget => pure out : WM Out) (w.upd v { d with len := len' })) ∧
     Gen.Kernel.splice_new d.len s e = Gen.Kernel.drain_new d.len s e :=
   ⟨KernelTie.drain_ctor_tie cfg w v lo hi typed eats fin d s e hv hl hr, (KernelTie.splice_ctor_tie d s e).2⟩
+
+/-- **source tie**: the orderings this property rests on are those of the source as re-translated on this run:
+`insert_unchecked` sets `len := index` *before* the shift and the (possibly panicking) `move_into`, and restores
+`len := len + 1` only after it; `clear` sets `len := 0` before any destructor runs; a dropped removal handle runs
+the destructor first and `consume()` after. -/
+theorem orderings_are_the_source (cfg : Cfg) (w : World) (dst index : Nat) (x : Val) (d : VecSt)
+    (hv : w.vecs[dst]? = some d) (hl : d.live = true) (h : Handle) (hh : h.v = dst) :
+    insertUnchecked dst index x w =
+      KernelTie.runCmds (KernelTie.valCtx dst x d.hasDrop)
+        (Gen.Kernel.insert_unchecked_cmds d.len index (valKnownType x)) w ∧
+    (index ≤ d.len → ∀ known, ∃ erased,
+      Gen.Kernel.insert_unchecked_cmds d.len index known =
+        [.reserveOne, .setLen index, .copy erased index (index + 1) (d.len - index), .moveInto index,
+         .setLen (d.len + 1)]) ∧
+    (∀ n hasDrop, ∃ rest, Gen.Kernel.clear_cmds n hasDrop = .setLen 0 :: rest) ∧
+    hDrop h w =
+      (do let slot ← hSlot h
+          if h.typed || d.hasDrop then
+            KernelTie.runCmds (KernelTie.hCtx h) (Gen.Kernel.temp_drop_cmds slot h.typed d.hasDrop)
+          else do
+            let id ← readElem h.v slot
+            dropElem false id
+            KernelTie.runCmds (KernelTie.hCtx h) (Gen.Kernel.temp_drop_cmds slot h.typed d.hasDrop)) w := by
+  refine ⟨KernelTie.insert_unchecked_tie w dst index x d hv hl, ?_, ?_, KernelTie.temp_drop_tie w h d (by rw [hh]; exact hv) hl⟩
+  · intro hi known
+    cases known
+    · exact ⟨true, by simp [Gen.Kernel.insert_unchecked_cmds, hi]⟩
+    · exact ⟨false, by simp [Gen.Kernel.insert_unchecked_cmds, hi]⟩
+  · intro n hasDrop
+    cases hasDrop
+    · exact ⟨[], rfl⟩
+    · exact ⟨[.dropFn 0 n], rfl⟩
+
+/-- **source tie**: how the source treats a replacement iterator whose `len()` lies (re-translated on this run): the
+write loop takes at most `claimed` values; if it got fewer, the parked tail is moved down to close the gap; in both
+cases `len` is set to what is really there (`start + written + tail`). -/
+theorem lying_splice_is_the_source (cfg : Cfg) (w : World) (it : RangeIt) (repl : List Val) (claimed : Nat) (d : VecSt)
+    (hv : w.vecs[it.v]? = some d) (hl : d.live = true) (hlen : d.len = it.start)
+    (idx e start end0 orig written : Nat)
+    (h1 : start + claimed ≤ USIZE_MAX) (h2 : start + claimed + (orig - end0) ≤ USIZE_MAX) :
+    spliceDrop cfg it repl claimed w = KernelTie.spliceDropBySource cfg it repl claimed d w ∧
+    Gen.Kernel.splice_drop_post_cmds idx e start end0 orig claimed written =
+      (if written < claimed then
+        [.moveElems (start + claimed) (start + written) (orig - end0), .setLen (start + written + (orig - end0))]
+      else [.setLen (start + written + (orig - end0))]) :=
+  ⟨KernelTie.splice_drop_tie cfg w it repl claimed d hv hl hlen,
+   KernelTie.splice_post_cases idx e start end0 orig claimed written h1 h2⟩
 
 end C06
 end AnyVec
